@@ -222,3 +222,52 @@ pub fn run_render(seed: u64, tier: &str, out: &mut Out) {
         if r.is_err() { out.emit(&format!("NOMODEL PANIC C11R case {case_no}"), &format!(" ORACLE FAIL panic while drawing or reading getters in C11R case {case_no} (same seed and tier reproduce it)")); }
     }
 }
+
+/// C11C — one frame, one moment: while a frame is being formatted another thread moves the position (the position is an
+/// atomic that `inc` changes without the bar's lock). Keys of the position / length families rendered in the same frame
+/// must still agree with each other: a bar without a length shows its length keys equal to its position keys, and the
+/// same key written twice shows one value. A custom key between the two placeholders lets a helper thread run `inc` at
+/// exactly that point (the position gate is exhausted first, so that the helper's `inc` does not try to draw).
+pub fn run_concurrent(seed: u64, tier: &str, out: &mut Out) {
+    use std::sync::atomic::{AtomicBool, Ordering};
+    use std::sync::Arc;
+    let mut rng = Rng::new(seed ^ 0x11c);
+    let n = if tier == "thorough" { 3_000 } else { 200 };
+    let pairs: [(&str, &str, bool); 6] = [("pos", "len", false), ("human_pos", "human_len", false), ("bytes", "total_bytes", false),
+        ("decimal_bytes", "decimal_total_bytes", false), ("binary_bytes", "binary_total_bytes", false), ("pos", "pos", true)];
+    for _ in 0..n {
+        vh::set_auto_advance_ns(0); vh::set_now_ns(1_000_000_000_000);
+        let (a, b, any_len) = *rng.pick(&pairs);
+        let len = if any_len && rng.chance(1, 2) { Some(rng.range(1, 5000)) } else { None };
+        let rec = Recorder::new(4, 120, false);
+        let pb = ProgressBar::with_draw_target(len, ProgressDrawTarget::term_like(Box::new(rec.clone()))).with_position(rng.below(3000));
+        let (armed, go, done) = (Arc::new(AtomicBool::new(false)), Arc::new(AtomicBool::new(false)), Arc::new(AtomicBool::new(false)));
+        let (armed2, go2, done2) = (armed.clone(), go.clone(), done.clone());
+        pb.set_style(ProgressStyle::with_template(&format!("{{{a}}}|{{gate}}|{{{b}}}")).unwrap().with_key("gate", move |_: &indicatif::ProgressState, _w: &mut dyn std::fmt::Write| {
+            if armed2.swap(false, Ordering::SeqCst) {
+                go2.store(true, Ordering::SeqCst);
+                let t = std::time::Instant::now();
+                while !done2.load(Ordering::SeqCst) && t.elapsed() < std::time::Duration::from_secs(2) { std::thread::yield_now(); }
+            }
+        }));
+        // exhaust the position gate at this (frozen) instant: later `inc`s only touch the atomic
+        for _ in 0..14 { pb.inc(0); }
+        let delta = *rng.pick(&[1u64, 1024, 999_999]);
+        let (pb2, go3, done3) = (pb.clone(), go.clone(), done.clone());
+        let helper = std::thread::spawn(move || { let t = std::time::Instant::now();
+            while !go3.load(Ordering::SeqCst) { if t.elapsed() > std::time::Duration::from_secs(5) { return false; } std::thread::yield_now(); }
+            pb2.inc(delta); done3.store(true, Ordering::SeqCst); true });
+        { rec.st.lock().unwrap().ops.clear(); }
+        armed.store(true, Ordering::SeqCst);
+        pb.tick();
+        let line = last_line(&rec);
+        let ran = helper.join().unwrap_or(false);
+        let parts: Vec<&str> = line.trim_end().split('|').collect();
+        let verdict = if !ran { "skip helper did not run".to_string() }
+            else if parts.len() != 3 { format!("FAIL frame not understood: {line:?}") }
+            else if parts[0] != parts[2] { format!("FAIL frame shows two moments: {{{a}}} = {:?} but {{{b}}} = {:?} in one frame (length {len:?}; another thread added {delta} while the frame was formatted)", parts[0], parts[2]) }
+            else { "ok".to_string() };
+        std::mem::forget(pb);
+        out.emit(&format!("NOMODEL SNAPSHOT {a} {b} len={len:?} delta={delta}"), &format!(" ORACLE {verdict}"));
+    }
+}
